@@ -108,6 +108,8 @@ class GenericModelCodeGenerator:
         resolved_types_style[StringLiteral][StringLiteral.TypeStyle.max_literals] = int(max_literals)
         self.types_style = resolved_types_style
 
+        self._field_labels: Dict[str, str] = {}  # field name -> key it was given to
+
         self.model.set_raw_name(self.convert_class_name(self.model.name), generated=self.model.is_name_generated)
 
     @cached_method
@@ -116,7 +118,11 @@ class GenericModelCodeGenerator:
 
     @cached_method
     def convert_field_name(self, name):
-        return prepare_label(name, convert_unicode=self.convert_unicode, to_snake_case=True)
+        label = prepare_label(name, convert_unicode=self.convert_unicode, to_snake_case=True)
+        # Different keys can collapse into one label ("a-b" and "ab"): keep the field names of a model distinct
+        while self._field_labels.setdefault(label, name) != name:
+            label += "_"
+        return label
 
     def generate(self, nested_classes: List[str] = None, bases: str = None, extra: str = "") \
             -> Tuple[ImportPathList, str]:
